@@ -1065,8 +1065,9 @@ where
         match rib.insert(&payload.rx_value, route_status, provenance, ltime) {
             Ok(report) => {
                 let post_insert = std::time::Instant::now();
-                let store_op_delay = pre_insert.duration_since(post_insert);
-                let propagation_delay = payload.received.duration_since(post_insert);
+                let store_op_delay = post_insert.duration_since(pre_insert);
+                let propagation_delay =
+                    post_insert.duration_since(payload.received);
 
                 let change = if report.prefix_new {
                     StoreInsertionEffect::RouteAdded
